@@ -5,6 +5,7 @@ One request per line, one answer line per request. Byte strings are hex (`-` = e
 import Updog.Oracle.Idx
 import Updog.Oracle.Lru
 import Updog.Oracle.Parse
+import Updog.Oracle.Fs
 open Updog Updog.Oracle
 
 structure St where
@@ -29,6 +30,7 @@ def step (st : St) (line : String) : St × String :=
         match (match w with | none => none | some w => w.complete) with
         | none => (st, "err")
         | some e => (st, fmtResult (executeFast ix ⟨e, []⟩))
+  | "fs" :: cmd :: args => (st, stepFs cmd args)
   | "lru" :: args => (st, stepLru args)
   | "qp" :: cmd :: args => (st, stepParse cmd args)
   | _ => (st, "bad-op")
